@@ -33,6 +33,7 @@ pub fn check(c: &Case, ctx: &mut Ctx) -> Result<(), Failure> {
     let mut by_field = mk()?; // documented field through Next<f64>
     let mut perturbed = mk()?; // bar with unread fields replaced
     let mut by_item = mk()?; // DataItem (while every bar so far was consistent)
+    let mut mixed = mk()?; // bar path and scalar path used alternately on one instance
     let mut item_ok = true;
     let fields = k.fields();
     let close_only = fields == F_CLOSE && k.scalar();
@@ -56,6 +57,7 @@ pub fn check(c: &Case, ctx: &mut Ctx) -> Result<(), Failure> {
             by_field.reset();
             perturbed.reset();
             by_item.reset();
+            mixed.reset();
             ctx.label("reset_of_all_twins");
         }
         crate::tele::step(&mut by_bar, &c.cfg);
@@ -71,6 +73,16 @@ pub fn check(c: &Case, ctx: &mut Ctx) -> Result<(), Failure> {
             None
         };
         if let Some((x, which)) = scalar_twin {
+            // the same instance fed through both paths in turn (about a quarter of the steps through the scalar
+            // path, in runs): "feeding a bar equals feeding its field" from any state, not only on pure streams
+            let h = (i as u64 ^ b.c.to_bits().rotate_left(17) ^ (c.bars.len() as u64) << 20).wrapping_mul(0x9E3779B97F4A7C15);
+            let om = if (h >> 33) % 4 == 0 || (i / 7) % 5 == 4 { mixed.next_scalar(x) } else { mixed.next_bar(b) };
+            if !same_out(&ob, &om, REL) {
+                ctx.fail(
+                    format!("C10:{}:mixed_paths", name),
+                    format!("{} step {}: an instance fed bars only returns {:?}, one fed the same history partly as next(&bar), partly as next(bar.{}) returns {:?}", c.cfg.tag(), i, ob.vals(), which, om.vals()),
+                )?;
+            }
             let of = by_field.next_scalar(x);
             if !same_out(&ob, &of, REL) {
                 ctx.fail(
@@ -225,6 +237,19 @@ fn strategy(maxlen: usize) -> BoxedStrategy<Case> {
             (Just(cfg), bars, vec(raw_bar(noise_field), 1..=8))
         })
         .prop_map(|(cfg, bars, noise)| Case { cfg, bars, noise })
+        // the whole stream in another sign or unit (a level below zero for its whole length: yields, spreads)
+        .prop_flat_map(|c| (Just(c), prop_oneof![8 => Just(1.0f64), 2 => Just(-1.0), 1 => Just(-0.01), 1 => Just(1e-3)]))
+        .prop_map(|(mut c, unit)| {
+            if unit != 1.0 {
+                for b in c.bars.iter_mut() {
+                    b.o *= unit;
+                    b.h *= unit;
+                    b.l *= unit;
+                    b.c *= unit;
+                }
+            }
+            c
+        })
         .boxed()
 }
 
